@@ -32,6 +32,31 @@ PROP = {
     "trusted": [],
     "units": [
         {
+            "id": "sciparse-c02-packet-view", "engine": "kani", "package": "sciparse", "crate_dir": CRATE,
+            "module": "/verif/kani/sciparse/c02_packet_view.rs",
+            "mod_path": "proto::packet::view::verif_c02_packet_view",
+            "hooks": [(SP + "proto/packet/view.rs", "mod verif_c02_packet_view;")],
+            "anchors": [
+                (SP + "proto/packet/view.rs", ["header", "header_mut", "payload", "payload_mut", "udp", "scmp", "as_raw", "as_raw_mut",
+                                               "try_as_udp", "try_as_scmp", "try_classify", "has_required_size"]),
+                (SP + "proto/payload/udp/view.rs", ["payload", "payload_mut", "has_required_size"]),
+                (SP + "proto/payload/scmp/view.rs", ["message", "message_mut", "offending_packet", "data", "message_specific_data"]),
+            ],
+            "functions": ["ScionPacketView<Raw|Udp|Scmp>::*", "UdpDatagramView::*", "ScmpPayloadView::*", "Scmp*MessageView::*"],
+            "harnesses": [
+                H("c02_pkt_raw_ctor_accessors", "B", bound="buffer <= 80 bytes", what="ScionRawPacketView constructor + header()/payload() inside", timeout=1800),
+                H("c02_pkt_raw_classify", "B", bound="buffer <= 80 bytes", what="try_as_udp / try_as_scmp / try_classify total, typed sub-views inside", timeout=1800),
+                H("c02_pkt_raw_mutators_preserve_inv", "B", bound="buffer <= 80 bytes", what="payload_mut writes + header_mut setters preserve Inv", timeout=1800),
+                H("c02_pkt_udp_ctor_accessors", "B", bound="buffer <= 80 bytes", what="ScionUdpPacketView constructor, udp(), socket addrs, header setters", timeout=1800),
+                H("c02_pkt_udp_as_raw_mut_then_accessors", "B", bound="buffer <= 80 bytes", what="safe as_raw_mut().payload_mut() writes keep every accessor panic-free (F-udp-raw-mut)", timeout=1800),
+                H("c02_udp_datagram_view", "P", what="UdpDatagramView constructor / accessors / mutators on every buffer <= 24 bytes (accessors touch only the 8-byte header or the tail)"),
+                H("c02_scmp_payload_ctor_message", "B", bound="buffer <= 40 bytes", what="ScmpPayloadView constructor, message() variants, quoted packet / data inside", timeout=1800),
+                H("c02_scmp_message_mut_preserves_inv", "B", bound="buffer <= 40 bytes", what="safe setters through message_mut() preserve Inv", timeout=1800),
+                H("c02_scmp_unknown_set_type_preserves_inv", "B", bound="buffer <= 40 bytes", what="safe ScmpUnknownMessageView::set_message_type preserves Inv of the payload view (F-scmp-unknown-settype)", timeout=1800,
+                  known_finding="F-scmp-unknown-settype"),
+            ],
+        },
+        {
             "id": "sciparse-c02-header-view", "engine": "kani", "package": "sciparse", "crate_dir": CRATE,
             "module": "/verif/kani/sciparse/c02_header_view.rs",
             "mod_path": "proto::header::view::verif_c02_header_view",
